@@ -25,6 +25,12 @@ claimed = {
           "A=3 (7), B=3 (6), durations 7ns,1s,10s,1h"),
  "C19": ("6 C19", "String-theory check (cvc5 strings + LIA, z3 for models) of NewExtractor/extractClientIP/extractHost/header extractor on the real SSA including net.SplitHostPort: for the three address forms net/http produces with symbolic byte contents the token equals the peer address, amounts are 1, and the variable-name dispatch accepts exactly the documented names.",
           "string lengths case-split: ip 1..5, port 1..5, zone 1..3 bytes (listed per job); malformed RemoteAddr is outside the claim"),
+ "C02": ("6 C02", "BMC through the public API of RoundRobin and of Rebalancer-over-RoundRobin: every history of k administration calls (upsert with/without weight, remove; symbolic choice of operation, URL and weight over a universe of 4 URLs with 3 identities differing in scheme/path/userinfo/query) is compared with a reference pool after every call (membership, size, weights, remove-unknown fails); then one rotation via NextServer or ServeHTTP shows traffic only to positive-weight members, each within one rotation, error response and no forwarding for an empty/all-zero pool, and a URL-rewriting downstream handler leaves the pool unchanged.",
+          "k<=3 (thorough 4) calls; racing administration is C09's lock discipline; the sticky path is covered by C11's harness"),
+ "C10": ("6 C10", "Inductive step on the real adjustWeights/markServers/setMarkedWeights/convergeWeights/normalizeWeights/applyWeights from an arbitrary state satisfying the representation invariant (symbolic configured and current weights, ratings from a list, readiness, timer, back-off): range [1,max(4096,configured)], configured weights untouched, balancer weights equal shadow weights, change only when all meters are ready and the timer expired, change arms the timer, no outlier's share grows; exact normalisation for a symbolic divisor; reset after any membership/weight change.",
+          "n=2 (thorough 3); ratings from {0,0.02,0.5,1}; gcd stubbed to 1 for 13-bit weights (real gcd for weights<=3); convergence-within-six and two-interval clauses are not claimed"),
+ "C16": ("6 C16", "Symbolic execution of forward.New(...).ErrorHandler (utils.StdHandler) over all error kinds (net.Error with symbolic timeout flag, EOF, wrapped EOF, context.Canceled, wrapped, other): exactly one status 502/504/499/500 as documented and one body; StateListener.ServeHTTP with a next handler that returns or panics (incl. http.ErrAbortHandler): callbacks are exactly [connected, disconnected] for the same URL.",
+          "byte-faithful relay, real timeouts/resets and chunking belong to net/http/httputil.ReverseProxy + http.Transport and are outside the reach of the encoder: not claimed"),
 }
 
 checks = []
